@@ -221,6 +221,10 @@ class XStr(Sym):
     def getitem(self, it, idx):
         if self.alts is not None and isinstance(idx, int):
             return self._map_alts(it, lambda t: t[idx])
+        if isinstance(idx, int) and idx < 0 and self.segs:
+            g, p = self.segs[-1]
+            if g is True and isinstance(p, str) and -idx <= len(p):
+                return p[idx]
         if isinstance(idx, int) and idx >= 0:
             # the idx-th character is determined only if everything before it is unconditional
             k = idx
@@ -281,6 +285,22 @@ class XStr(Sym):
             return XStr(segs).simplify()
         if name == 'join':
             return str_join(it, self, args[0])
+        if name in ('replace', 'capitalize', 'strip', 'lstrip', 'rstrip', 'title') and \
+                self.alts is not None and all(isinstance(a, str) for a in args):
+            return self._map_alts(it, lambda t: getattr(t, name)(*args))
+        if name in ('strip', 'lstrip', 'rstrip') and len(self.segs) == 1 and \
+                self.segs[0][0] is True and isinstance(self.segs[0][1], Atom) and not args:
+            p = self.segs[0][1]
+            key = (p.name, name)
+            d = _DERIVED.get(key)
+            if d is None:
+                d = _DERIVED[key] = Atom(f'{p.name}.{name}', only=p.only, excl=p.excl)
+            return XStr([(True, d)])
+        if name == 'find' and len(args) == 1 and isinstance(args[0], str) and args[0]:
+            needle = args[0]
+            if not any(piece_may_contain(p, needle[0]) for _, p in self.segs):
+                return -1
+            raise Undetermined(f'find({needle!r}) in {self!r}')
         if name in ('startswith', 'endswith'):
             raise Undetermined(f'{name} on {self!r}')
         if name == 'encode':
